@@ -110,6 +110,29 @@ def run(unit, em):
                     em.ok(c, txt, 'frozen exception (%s): %s' % (name, C2_EXC[name]), 'C2')
                 else:
                     em.violation(c, txt, 'an internal node can be created with identical children %s, %s: the MTBDD is no longer reduced and equal functions compare unequal' % (ta, tb), 'C2')
+        # ---- C7 projection: the equal-children shortcut applies only to variables that are kept
+        if name == 'projectNode':
+            for n in fn.walk():
+                if n['k'] != 'IfStmt':
+                    continue
+                c = strip(n['c'])
+                ops = None
+                if c is not None and c['k'] == 'BinaryOperator' and c.get('op') == '==':
+                    ops = c['ch']
+                elif c is not None and c['k'] == 'CXXOperatorCallExpr' and c.get('op') == '==' and len(c.get('args', [])) == 2:
+                    ops = c['args']
+                if not ops:
+                    continue
+                names = {unit.text(strip(o), 0) for o in ops}
+                if not all(re.search('[Tt]ree|low|high', x) for x in names) or len(names) != 2:
+                    continue
+                facts, _ = known_facts(n)
+                kept = any(pol is False and (strip(a) or {}).get('k') == 'CXXOperatorCallExpr' and (strip(a) or {}).get('op') == '()' for pol, a in facts) or \
+                    any(pol is False and 'pred' in unit.text(a, 0) for pol, a in facts)
+                if kept:
+                    em.ok(n, 'projectNode: ' + unit.text(n['c'], 40), 'the equal-children shortcut is taken only when the variable is not projected out', 'C7')
+                else:
+                    em.violation(n, 'projectNode: ' + unit.text(n['c'], 40), 'the equal-children shortcut is reachable for a projected variable: op(child, child) is skipped, which is wrong for non-idempotent operations', 'C7')
         if cfg is None:
             continue
         is_apply = cls in ('Apply1Functor', 'Apply2Functor', 'Apply3Functor', 'VoidApply1Functor', 'VoidApply2Functor')
@@ -142,6 +165,7 @@ def run(unit, em):
                         internal_k = False
                         cmp_ok = True
                         seen_cmp = 0
+                        others = set()
                         for pol, atom in facts:
                             at = strip(atom)
                             if at is None:
@@ -155,13 +179,14 @@ def run(unit, em):
                                     if l is not None and r is not None and l['k'] == 'CallExpr' and r['k'] == 'CallExpr' and cname(l) == cname(r) == 'GetVarFromInternal':
                                         seen_cmp += 1
                                         ld, rd = (strip(l['args'][0]) or {}).get('d'), (strip(r['args'][0]) or {}).get('d')
+                                        others.add(rd if ld == pd[k] else ld)
                                         if not ((x['op'] == '>=' and ld == pd[k] and rd != pd[k]) or (x['op'] == '<=' and rd == pd[k] and ld != pd[k])):
                                             cmp_ok = False
                         txt = unit.text(n, 50)
-                        if internal_k and cmp_ok and seen_cmp >= nparams - 1:
+                        if internal_k and cmp_ok and others == set(pd) - {pd[k]}:
                             em.ok(n, '%s: %s' % (name, txt), 'operand %d branched iff internal and its variable >= every other internal operand\'s' % (k + 1), 'C6')
                         else:
-                            em.violation(n, '%s: %s' % (name, txt), 'operand %d must be branched exactly when it is internal and its variable is >= the variable of every other internal operand (found internal-test=%s, comparisons ok=%s, %d comparisons)' % (k + 1, internal_k, cmp_ok, seen_cmp), 'C6')
+                            em.violation(n, '%s: %s' % (name, txt), 'operand %d must be branched exactly when it is internal and its variable is >= the variable of every other internal operand (found internal-test=%s, comparisons ok=%s, compared against %d of %d other operands)' % (k + 1, internal_k, cmp_ok, len(others & (set(pd) - {pd[k]})), nparams - 1), 'C6')
             continue
         # ---- C4 / C5 on recDescend
         nodes = [p['d'] for p in fn.params]
